@@ -50,7 +50,11 @@ class FakeStream:
     def fail(self, exc: BaseException) -> None:
         if self.exc is None and not self.eof:
             self.exc = exc
-            self._wake()
+            # As aiohttp's StreamReader.set_exception(): a parked reader gets the exception thrown in through
+            # its waiter; a busy reader meets it on its next read. (The two differ in which frames the
+            # traceback keeps alive, and so in when abandoned generators up the stack get finalized.)
+            if self.waiter is not None and not self.waiter.done():
+                self.waiter.set_exception(exc)
 
     def client_close(self) -> None:
         self.client_closed = True
@@ -509,6 +513,7 @@ class WatchConn:
         self.close_reason: Optional[str] = None
         self.silenced = False
         self.pending: list[bytes] = []
+        self.pending_eof = False
         self.outbox: collections.deque[tuple[str, Any]] = collections.deque()  # FIFO on the wire
         watch.sink = self._on_server_event
 
@@ -554,6 +559,9 @@ class WatchConn:
             assert rsp._sim_stream is not None
             rsp._sim_stream.feed(data)
         self.pending.clear()
+        if self.pending_eof:
+            assert rsp._sim_stream is not None
+            rsp._sim_stream.feed_eof()
         self.sim.log('watch-headers', self.cid)
         req.fut.set_result(rsp)
 
@@ -609,6 +617,9 @@ class WatchConn:
                 extra.append({'type': 'ERROR', 'object': act.get('object') or cl.status_payload(
                     act.get('code', 500), 'InternalError', 'sim: injected watch error')})
             elif k == 'stream-silence':
+                if not self.silenced:
+                    self.silenced_at = sim.now
+                    sim.log('watch-silenced', self.cid)
                 self.silenced = True
                 sim.count('fault.silence-dropped')
                 return
@@ -704,9 +715,9 @@ class WatchConn:
         if self.rsp is not None and self.rsp._sim_stream is not None:
             self.rsp._sim_stream.feed_eof()
         elif not self.req.fut.done():
-            # The connection died before the headers: the request fails.
-            self.req.done = True
-            self.req.fut.set_exception(aiohttp.ServerDisconnectedError())
+            # The server has accepted the watch, so its headers are on their way; the orderly end of the
+            # body follows them (and whatever events were sent in between) in order.
+            self.pending_eof = True
 
     def _break(self, excname: str, reason: str) -> None:
         if self.closed:
@@ -715,6 +726,11 @@ class WatchConn:
         self._close_server_side(reason)
         exc = self.net._exc(excname)
         if self.rsp is not None and self.rsp._sim_stream is not None:
+            if excname != 'TimeoutError' and self.net._u('partial', self.cid) < 0.5:
+                # The last bytes and the reset arrive together: the reader is busy with the (incomplete)
+                # data when the error lands, and meets it on its next read instead of inside its wait.
+                self.sim.count('fault.reset-with-partial-data')
+                self.rsp._sim_stream.feed(b'{"type": "MODIF')
             self.rsp._sim_stream.fail(exc)
         elif not self.req.fut.done():
             self.req.done = True
